@@ -37,6 +37,7 @@ type Unit struct {
 	TypeNames   map[string]LT     // per-unit Go type -> Lean type (for map literals), overriding goTypeNames
 	Inline      string            // helpers translated on demand: the function as a lambda term, used at the call sites
 	Mutates     []bool            // … and, per value parameter, whether the helper writes through it
+	Closure     bool              // the function is `return func(…) (…) { … }`: the unit is that closure (parameters: outer, then inner)
 	failed      string            // set when the unit turned out not to be translatable
 }
 
@@ -555,4 +556,26 @@ func init() {
 			Params: append(append([]gparam{}, kctx...), gparam{Go: "auctionId", T: "Int"}, gparam{Go: "bidderAddr", T: "Acc"}, gparam{Go: "payingCoin", T: "Coin"}),
 			Ret:    []LT{"Err"}, EffectsOn: true, Calls: send},
 	)
+}
+
+func init() {
+	// ---- keeper/invariants.go: the module's own (crisis) invariants.  Each is a function returning
+	// a closure over the context; the unit is the closure.  Store-threaded (they read through
+	// k.Auctions / k.GetBidsByAuctionId / k.GetVestingQueuesByAuctionId, which are units), the bank
+	// balance is an oracle function of the address the code passes.  The message string is dropped
+	// (a poisoned local), the result is the `broken` flag.
+	inv := func(name string) Unit {
+		return Unit{Group: "Invariants", Name: name, Pkg: keeperP, Func: name, StoreOn: true, JoinIfs: true, Closure: true,
+			Params: []gparam{{Go: "k", T: "Keeper"}, {Go: "ctx"}, {Go: "bal__", T: "BankFn", Oracle: true}}, Ret: []LT{"String", "Bool"},
+			Calls: map[string]callSpec{
+				"k.bankKeeper.SpendableCoins": {Value: V{"(bal__ %2)", "Bal"}},
+				// the text of the report is not modelled: every formatted message is the empty string
+				"sdk.FormatInvariant": {Value: V{"\"\"", "String"}},
+				"fmt.Sprintf":         {Value: V{"\"\"", "String"}},
+			}}
+	}
+	units = append(units,
+		inv("SellingPoolReserveAmountInvariant"),
+		inv("PayingPoolReserveAmountInvariant"),
+		inv("VestingPoolReserveAmountInvariant"))
 }
